@@ -22,6 +22,19 @@ def run (args : List String) : String :=
   match args with
   | "enc" :: kind :: fields =>
     (firstSome (groups.map (fun g => g.1 kind fields))).getD "bad-op"
+  | "rt" :: kind :: fields =>
+    -- write, then read back what was written (token consumed by the channel first)
+    match firstSome (groups.map (fun g => g.1 kind fields)) with
+    | none => "bad-op"
+    | some e =>
+      match e.splitOn " " with
+      | ["ok", hex] =>
+        match fromHex hex with
+        | some (t :: body) =>
+          let d := (firstSome (groups.map (fun g => g.2 t.toNat none body))).getD "notEnough"
+          s!"{d} of {body.length}"
+        | _ => "bad-op"
+      | _ => e
   | ["dec", tokhex, ctx, hex] =>
     match fromHex tokhex, fromHex hex with
     | some [t], some bs =>
